@@ -137,17 +137,16 @@ Qed.
 
 Lemma read_block_ex_char q : block_valid q = true ->
   (p_route q = Fd -> p_len q = 0%nat -> p_body q <= length (p_bytes q))%nat ->
-  match read_current_block_ex q, body_of (p_bytes q) (mkblock (p_type q) (p_len q) (p_body q)), p_route q with
-  | Ok (got, owned, _), Some body, r => got = body /\ owned = (match r with Fd => true | Mem => false end)
-  | Err e, None, Fd => e = SB_EREAD
-  | OOB _ _, None, Mem => True
-  | _, _, _ => False
+  match read_current_block_ex q, body_of (p_bytes q) (mkblock (p_type q) (p_len q) (p_body q)) with
+  | Ok (got, owned, _), Some body => got = body /\ owned = (match p_route q with Fd => true | Mem => false end)
+  | Err e, None => e = SB_EREAD
+  | _, _ => False
   end.
 Proof.
   intros Hv Hfd. pose proof (read_current_block_char q Hv Hfd) as H.
   unfold read_current_block_ex. destruct (p_route q) eqn:Er.
-  - unfold body_of. cbn [b_body b_len].
-    destruct (length (p_bytes q) <? p_body q + p_len q)%nat eqn:E2; [exact I|split; reflexivity].
+  - rewrite Hv. cbn [negb orb]. unfold body_of. cbn [b_body b_len].
+    destruct (length (p_bytes q) <? p_body q + p_len q)%nat eqn:E2; [reflexivity|split; reflexivity].
   - destruct (read_current_block q) as [[got p1]|e| |]; cbn [bind];
       destruct (body_of (p_bytes q) (mkblock (p_type q) (p_len q) (p_body q))); try exact H.
     split; [exact H|reflexivity].
@@ -156,11 +155,10 @@ Qed.
 Lemma read_block_ex_spec' : forall q, block_valid q = true ->
   (p_body q <= length (p_bytes q))%nat ->
   let b := mkblock (p_type q) (p_len q) (p_body q) in
-  match read_current_block_ex q, body_of (p_bytes q) b, p_route q with
-  | Ok (got, owned, _), Some body, r => got = body /\ owned = (match r with Fd => true | Mem => false end)
-  | Err e, None, Fd => e = SB_EREAD
-  | OOB _ _, None, Mem => True
-  | _, _, _ => False
+  match read_current_block_ex q, body_of (p_bytes q) b with
+  | Ok (got, owned, _), Some body => got = body /\ owned = (match p_route q with Fd => true | Mem => false end)
+  | Err e, None => e = SB_EREAD
+  | _, _ => False
   end.
 Proof.
   intros q Hv Hb b. apply read_block_ex_char; [exact Hv|intros _ _; exact Hb].
@@ -844,4 +842,20 @@ Lemma init_body_ok r bytes p : parser_init r bytes = Ok p -> body_ok p.
 Proof.
   intros H. destruct (init_ok_inv _ _ _ H) as (p0 & Hh & _).
   exact (header_result_body_ok _ _ Hh).
+Qed.
+
+Lemma reachable_blocks_start_inside : forall r bytes p q ty,
+  parser_init r bytes = Ok p ->
+  (block_valid p = true -> (p_body p <= length (p_bytes p))%nat) /\
+  (forall p', (block_valid p' = true -> (p_body p' <= length (p_bytes p'))%nat) ->
+     (seek_to_next_block p' = Ok q -> block_valid q = true -> (p_body q <= length (p_bytes q))%nat) /\
+     (rewind p' = Ok q -> block_valid q = true -> (p_body q <= length (p_bytes q))%nat) /\
+     (find_first p' ty = Ok q -> block_valid q = true -> (p_body q <= length (p_bytes q))%nat)).
+Proof.
+  intros r bytes p q ty Hi. split.
+  - exact (init_body_ok _ _ _ Hi).
+  - intros p' _. repeat split.
+    + intros H. exact (seek_body_ok _ _ H).
+    + intros H. exact (rewind_body_ok _ _ H).
+    + intros H. exact (find_first_body_ok _ _ _ H).
 Qed.
